@@ -180,7 +180,9 @@ def run(pid, tier, seed, replay=None, nworkers=None, keep=False):
                 continue
             seen.add(key)
             path = os.path.join(rdir, f"{tier}_s{seed}_c{i}_{v['monitor']}.json")
-            if not os.path.exists(path) or not replay:
+            if replay:
+                path = os.path.abspath(replay)
+            else:
                 with open(path, "w") as f:
                     json.dump({"property": pid, "tier": tier, "seed": seed, "case": cases[i],
                                "violation": v, "tree": env.tree_fingerprint()}, f, indent=1)
